@@ -297,6 +297,22 @@ def run(tier, seed, replay):
                 Dh = messy_unique(cand)
                 lines.append("C01.isherm_dia " + json.dumps({"a": dia_json(Dh)}))
                 expect.append(("isherm", bool(_props.isherm_dia(Dh)), bool(np.array_equal(cand, cand.conj().T)) and shape[0] == shape[1]))
+        # trace_dia, expect_dia (ket and density-matrix loops) on square operators with shuffled diagonals
+        if shape[0] == shape[1]:
+            _expect = importlib.import_module("qutip.core.data.expect")
+            _trace = importlib.import_module("qutip.core.data.trace")
+            for _ in range(2):
+                OPm = messy_unique(a)
+                lines.append("C01.trace_dia " + json.dumps({"a": dia_json(OPm)}))
+                expect.append(("value", complex(_trace.trace_dia(OPm))))
+                kv = pattern(rng, (shape[0], 1), str(rng.choice(["full", "random"])))
+                Kd = _data.to(_data.Dia, _data.Dense(kv))
+                lines.append("C01.expect_dia " + json.dumps({"op": dia_json(OPm), "state": dia_json(Kd)}))
+                expect.append(("value", complex(_expect.expect_dia(OPm, Kd))))
+                if shape[0] > 1:
+                    RHOm = messy_unique(pattern(rng, shape, str(rng.choice(kinds))))
+                    lines.append("C01.expect_dia " + json.dumps({"op": dia_json(OPm), "state": dia_json(RHOm)}))
+                    expect.append(("value", complex(_expect.expect_dia(OPm, RHOm))))
     model = core.run_driver(lines)
     ndis, first = 0, None
     for line, ex, m in zip(lines, expect, model):
